@@ -17,7 +17,8 @@ EXPLANATION = (
     "block's size is the number of bytes read into it; (last block) shared with C02's block-loop rule; (window) the "
     "frame header's window comes from Matcher::window_size() and is rounded up (C14 writer rule), for the built-in "
     "matcher that is the eviction bound (C17); (literals) compress_literals falls back to raw literals when the "
-    "Huffman section is not smaller; (trailer) after the block loop only the optional checksum is written. "
+    "Huffman section is not smaller, and the literals header it writes picks the size format by length with the "
+    "field widths of RFC 8878 3.1.1.3.1.1 (shared with C14.layout.literals-header, writer side); (trailer) after the block loop only the optional checksum is written. "
     "Not decided: the size inequality and structural validity for all inputs (runtime values).")
 ASSUMPTIONS = ["C02/C14/C17 clauses referenced above hold (their own checks)"]
 
@@ -211,11 +212,24 @@ def run(ctx):
         bix = hq.Index(cbk)
         rl = dom.one_call(cbk, "raw_literals")
         cl = dom.one_call(cbk, "compress_literals")
-        ok = any(c == "(alloc::vec::Vec::len(@mut:Vec::new) <= 1024)" or ("<= 1024" in c) for c in dom.conds(bix, rl)) and \
+        # raw unless there are more than 1024 literals (and, since F11, two distinct byte values): the else branch of
+        # `len > 1024 && ..` prints as the negated conjunction
+        ok = any(("<= 1024" in c) or (c.startswith("!") and "(1024 < " in c) for c in dom.conds(bix, rl)) and \
             any("1024 <" in c for c in dom.conds(bix, cl))
         ctx.check(ok, RL, "compress_block::small-literals-raw", cbk["file"], "at most 1024 literals are stored raw, more are Huffman-coded",
                   observed=[dom.conds(bix, rl), dom.conds(bix, cl)])
     ctx.guard(RL, "flow", flow_)
+    # "every section's stated size matches its content": the literals header the compressor writes (size format by
+    # length, regenerated / compressed size fields, stream count by format) — same rule instances as C14's writer side
+    start = len(ctx.obs)
+    ctx.only = lambda rule, key: (rule, key) == ("C14.layout.literals-header", "writers")
+    ctx.rename = lambda rule: "C15.literals-header" if rule == "C14.layout.literals-header" else rule
+    try:
+        c14_headers._literals(ctx, c14.SPEC)
+    finally:
+        ctx.only = None
+        ctx.rename = None
+    ctx.floor("C15.literals-header", len([o for o in ctx.obs[start:] if o.rule == "C15.literals-header"]), 10, "literals header writer obligations")
     ctx.floor("C15.all", len([o for o in ctx.obs if o.cfg == ctx.cfg]), 30, "C15 obligations")
 
 
